@@ -716,6 +716,15 @@ func runC16(rc *runCtx) error {
 				c16Plan{first, "delete", 2, nm}, c16Plan{1 - first, "get", 2, nm}, c16Plan{1 - first, "search", 2, nm},
 				c16Plan{first, "create", 2, nm}, c16Plan{first, "insert", 2, nm},
 				c16Plan{1 - first, "delete", 2, nm}, c16Plan{first, "search", 2, nm})
+			// then a collection id that is a path into the other user's collection (first still holds nm with her
+			// points): creating it is refused; were it accepted, filling and deleting it would reach her files
+			hostile := "../" + pair.a + "/" + nm
+			if first == 1 {
+				hostile = "../" + pair.b + "/" + nm
+			}
+			plan = append(plan,
+				c16Plan{1 - first, "create", 2, hostile}, c16Plan{1 - first, "insert", 2, hostile}, c16Plan{1 - first, "delete", 2, hostile},
+				c16Plan{first, "get", 2, nm}, c16Plan{first, "search", 2, nm})
 			n := 14 + r.IntN(18)
 			for i := 0; i < n; i++ {
 				plan = append(plan, s.randomPlan())
